@@ -396,7 +396,7 @@ pub fn run(ctx: &mut Ctx) {
     }
     // ---- U: random UTF-8
     ctx.stratum("U-random-utf8", false);
-    let nu = ctx.tier.pick(150_000u64, 15_000_000u64);
+    let nu = ctx.tier.n(150_000, 15_000_000);
     let uni: &[&str] = &["é", "Ł", "ű", "中", "😀", "\u{301}", "\u{0}", "\n", "\t", "\u{a0}", "\u{2028}", "ａ", "１", "·", "\u{feff}", "\u{7f}", "\\", "\"", "_", ","];
     let ascii: &[&str] = &["1", "2", "0", ".", ".", "-", "+", " ", "||", ">", "<", "=", ">=", "~", "^", "x", "*", "v", "a", "rc", "1.2.3", "900719925474099", "900719925474100", "18446744073709551616", " - "];
     for i in 0..nu {
